@@ -14,7 +14,7 @@ from simtz import opcodec as oc
 from simtz.runner import rng_for
 
 ID = 'C29'
-QUICK_RUNS = 8000
+QUICK_RUNS = 20000
 QUICK_BUDGET_S = 60
 CHUNK = 25
 RULE = (
